@@ -15,7 +15,7 @@ func zzPlat(pfx string) Platform {
 		p.OS = zzChoose(pfx+"_os", "linux", "windows", "darwin", "macos", "freebsd")
 		p.Architecture = zzChoose(pfx+"_arch", "amd64", "x86_64", "arm", "armhf", "arm64", "aarch64")
 		p.Variant = zzChoose(pfx+"_var", "", "v1", "v2", "v6", "v7", "v8", "7", "8")
-		p.OSVersion = zzChoose(pfx+"_osver", "", "10.0.17763.1000", "10.0.17763.2000", "10.0.20348.1")
+		p.OSVersion = zzChoose(pfx+"_osver", "", "10.0.17763", "10.0.17763.1000", "10.0.17763.2000", "10.0.20348.1")
 	}
 	return p
 }
